@@ -27,6 +27,7 @@ import contextlib
 import hashlib
 import io as _io
 import math
+import re
 import multiprocessing as mp
 import os
 import random
@@ -554,7 +555,9 @@ def compare(case, res, ilines, ioffs, marks, pred, first_event_line, any_error_c
             a_cmp = " ".join(["error", "*"] + a.split(" ")[2:])
         else:
             a_cmp = a
-        if cp != a_cmp:
+        # a patch event's note is observed only through the frequency it sets: 127 and 127.0 are the same observation
+        cp_n = re.sub(r"((?:patch|setfreq)\([^)]*?)f(-?\d+)/1(?=[,)])", r"\1i\2", cp)
+        if cp != a_cmp and cp_n != a_cmp:
             return (k, "event %d: predicted %r, implementation %r" % (k, cp, a))
         if k < len(marks):
             for beats, n, ch in offs:
